@@ -6,7 +6,9 @@ point sets of a call:  F(r) = sum of w_p w_q over all pairs with chord distance 
   autocorrelate / crosscorrelate   which catalogs are linked, which pairs of catalogs are counted, which slot of CorrFunc
     -> PatchLinkage.from_catalogs  every patch pair that can hold a pair within the largest angle is linked   (pruning lemma)
        get_max_angle               >= every angle process_patch_pair uses (largest scale angle over all bin centres)
-    -> iter_patch_id_pairs         every linked pair once (auto: once as (min, max)), every (i, i)      [BOUNDED exhaustive, N <= 5]
+    -> iter_patch_id_pairs         every linked pair exactly once (auto: only i < j), every (i, i) once, nothing else, the linkage
+                                   itself unchanged: any number of patches, any reflexive link structure (ghost dict / set model,
+                                   three loop invariants over the count of yields); also exhaustively on the real function, N <= 5
     -> count_pairs                 cell (i, j) of every scale = the counts of task (i, j), halved on the diagonal iff auto,
                                    0 if no task; sum_weights columns from the tasks; any arrival order
     -> process_patch_pair          bin b: trees b of both patches, angles of all scales at the centre of bin b
@@ -39,14 +41,15 @@ EXPLANATION = (
     "at the angles of the centre of bin b, count_pairs writes every task into its own cell for any arrival order, get_max_angle "
     "dominates every angle used, from_catalogs links every patch pair whose extents allow a pair within that angle (metric "
     "lemma over all catalogs), autocorrelate/crosscorrelate count the stated catalog pairs into the stated slots. "
-    "iter_patch_id_pairs is decided exhaustively for all symmetric reflexive link graphs of up to 5 patches (bounded); the "
-    "composition is checked against brute force on the real library (bounded).")
+    "iter_patch_id_pairs yields every linked pair exactly once for any number of patches and any reflexive link structure (loop "
+    "invariants over a ghost count of yields; python dict/set semantics assumed), and is also run exhaustively for all symmetric "
+    "reflexive link graphs of up to 5 patches (bounded); the composition is checked against brute force on the real library (bounded).")
 TRUSTED = ["scipy.spatial.KDTree.count_neighbors (chord <= r, cumulative / per-bin semantics, weights tuple)",
            "np.argmin first minimum", "np.diff", "build_trees contract (C10)", "Metadata invariant of every patch (C12)",
            "angular distance is a metric on the sphere (symmetry, triangle inequality)", "iter_unordered contract (C05)"]
 NOT_DECIDED = ["floating-point ties between a pair separation and a scale limit; exactness of 10**log10(x)",
                "ang_min = 0 (log10(0) is outside the real-number model); get_ang_bins is proved for positive limits",
-               "iter_patch_id_pairs beyond 5 patches", "KD-tree internals"]
+               "termination of iter_patch_id_pairs", "KD-tree internals"]
 ASSUMPTIONS = []
 
 
@@ -844,6 +847,265 @@ def u_get_pairs(ctx, auto):
         r3 = call(links.count_pairs_optional, None, max_workers=2)
         ctx.check("C01/count_pairs_optional/post:none_per_scale_iff_a_catalog_is_missing", r1 == [None, None, None] and r3 == [None, None, None]
                   and r2 == ("COUNTED", (a, b), dict(progress=False, max_workers=2)))
+
+
+# ---------------------------------------------------------------------------------------------------------
+# iter_patch_id_pairs: every linked pair exactly once, for any number of patches and any link structure
+# ---------------------------------------------------------------------------------------------------------
+
+class _Rows:
+    """ghost: the sets of the dict, rem(i, j) <=> j in patch_links[i]"""
+
+    def __init__(self, rem):
+        self.rem = rem
+
+    def vc_havoc(self, ctx, name):
+        f = ctx.fresh_fn("rem", z3.IntSort(), z3.IntSort(), z3.BoolSort())
+        self.rem = lambda a, b: f(a, b)
+
+    def vc_snapshot(self):
+        return _Rows(self.rem)
+
+
+class _Yielded:
+    """ghost: how often the pair (a, b) was yielded"""
+
+    def __init__(self):
+        self.yc = lambda a, b: z3.IntVal(0)
+
+    def vc_havoc(self, ctx, name):
+        f = ctx.fresh_fn("yielded", z3.IntSort(), z3.IntSort(), z3.IntSort())
+        self.yc = lambda a, b: f(a, b)
+
+    def vc_snapshot(self):
+        y = _Yielded()
+        y.yc = self.yc
+        return y
+
+    def on_emit(self, value):
+        i, j = value
+        it, jt, old = to_term(i), to_term(j), self.yc
+        self.yc = lambda a, b: old(a, b) + z3.If(z3.And(a == it, b == jt), 1, 0)
+
+
+class _Enum:
+    """finite set of integers as an injective enumeration key(0..n-1) with its inverse idx: x is a member iff
+    0 <= idx(x) < n and key(idx(x)) == x.  ASSUMED python semantics: removing / adding a member gives such an enumeration of the
+    new member set (any order)"""
+
+    def __init__(self, ctx, hint, n=None):
+        self.ctx, self.hint = ctx, hint
+        self._fresh(n)
+
+    def _fresh(self, n=None):
+        ctx = self.ctx
+        I = z3.IntSort()
+        self.n = ctx.fresh_int(f"len_{self.hint}", lo=0, size=True) if n is None else n
+        k, x = ctx.fresh_fn(f"key_{self.hint}", I, I), ctx.fresh_fn(f"idx_{self.hint}", I, I)
+        self.key, self.idx = (lambda q: k(q)), (lambda a: x(a))
+
+    def state(self):
+        return (self.n, self.key, self.idx)
+
+    def mem(self, a, st=None):
+        n, key, idx = st or self.state()
+        return z3.And(idx(a) >= 0, idx(a) < to_term(n), key(idx(a)) == a)
+
+    def wf(self, st=None):
+        n, key, idx = st or self.state()
+        q = bv("q")
+        return z3.And(to_term(n) >= 0, forall([q], z3.Implies(z3.And(q >= 0, q < to_term(n)), idx(key(q)) == q), patterns=[key(q)]))
+
+    def vc_havoc(self, ctx, name):
+        self._fresh()
+
+    def vc_len(self):
+        return self.n
+
+    def item(self, j):
+        return SNum(self.key(to_term(j)))
+
+    def _replace(self, member_after, delta):
+        old = self.state()
+        self._fresh(n=SNum(to_term(old[0]) + delta))
+        a = bv("a")
+        self.ctx.assume(self.wf(), "python:set/dict keys stay an enumeration without repetition")
+        self.ctx.assume(forall([a], self.mem(a) == member_after(a, old), patterns=[self.idx(a), old[2](a)]), "python:membership after adding / removing one key")
+
+
+class _LinkDict(_Enum):
+    """ghost dict patch id -> set of ids: the keys are an enumeration (iteration order = enumeration order), the sets are rows"""
+
+    def __init__(self, ctx, hint, rows, n=None):
+        super().__init__(ctx, hint, n)
+        self.rows = rows
+
+    def vc_snapshot(self):
+        c = _LinkDict.__new__(_LinkDict)
+        c.ctx, c.hint, c.rows = self.ctx, self.hint, self.rows
+        c.n, c.key, c.idx = self.state()
+        return c
+
+    def vc_fresh_like(self, ctx, name):
+        c = self.vc_snapshot()      # same rows object (havoced through the loop ghosts), new keys
+        c._fresh()
+        return c
+
+    def vc_deepcopy(self):
+        c = self.vc_snapshot()
+        c.rows = _Rows(self.rows.rem)
+        self.ctx.ghost["copies"].append(c)
+        return c
+
+    def items(self):
+        n, key, _ = self.state()
+        rows = self.rows
+        return SSeq(n, lambda q: (SNum(key(to_term(q))), _Row(self.ctx, rows, key(to_term(q)))))
+
+    def pop(self, k):
+        kt = to_term(k)
+        if not self.ctx.branch(self.mem(kt)):
+            raise KeyError(k)
+        self._replace(lambda a, old: z3.And(self.mem(a, old), a != kt), -1)
+
+
+class _Row:
+    def __init__(self, ctx, rows, i):
+        self.ctx, self.rows, self.i = ctx, rows, i
+
+    def _discard(self, kt):
+        old, i = self.rows.rem, self.i
+        self.rows.rem = lambda a, b: z3.And(old(a, b), z3.Not(z3.And(a == i, b == kt)))
+
+    def remove(self, k):
+        kt = to_term(k)
+        if not self.ctx.branch(self.rows.rem(self.i, kt)):
+            raise KeyError(k)
+        self._discard(kt)
+
+    def pop(self):
+        e = bv("e")
+        if not self.ctx.branch(z3.Exists([e], self.rows.rem(self.i, e))):
+            raise KeyError("pop from an empty set")
+        k = self.ctx.fresh_int("popped")
+        self.ctx.assume(self.rows.rem(self.i, k.t), "python:set.pop returns a member")
+        self._discard(k.t)
+        return k
+
+
+class _IdSet(_Enum):
+    """ghost for `exhausted = set()`"""
+
+    def add(self, k):
+        kt = to_term(k)
+        if self.ctx.branch(self.mem(kt)):
+            return
+        self._replace(lambda a, old: z3.Or(self.mem(a, old), a == kt), 1)
+
+
+@unit(P, "PatchLinkage.iter_patch_id_pairs", fuc=["yaw.correlation.measurements:PatchLinkage.iter_patch_id_pairs"],
+      cases=[dict(auto=a) for a in (False, True)], trusted=["python dict/set: pop/remove/add change membership by exactly one key; iteration visits every key once"])
+def u_iter_pairs(ctx, auto):
+    """for ANY number of patches and ANY reflexive link structure: the pair (i, i) of every patch is yielded exactly once, every
+    linked pair (i, j), i != j, exactly once (autocorrelation: only i < j, once), nothing else; the linkage itself is left
+    unchanged (it can be iterated again).  Termination is not proved."""
+    from pyvc.unit import find_site
+    M = mod("yaw.correlation.measurements")
+    Q = "yaw.correlation.measurements:PatchLinkage.iter_patch_id_pairs"
+    fn = shadow.reload_function(Q)
+    name = "C01/iter_patch_id_pairs"
+    I, Bo = z3.IntSort(), z3.BoolSort()
+    link0_f = ctx.fresh_fn("linked", I, I, Bo)
+    link0 = lambda a, b: link0_f(a, b)  # noqa: E731
+    orig = _LinkDict(ctx, "patches", _Rows(link0))
+    st0 = orig.state()
+    ctx.ghost["copies"] = []
+    a_, b_ = bv("a"), bv("b")
+    has0 = lambda a: orig.mem(a, st0)  # noqa: E731
+    ctx.assume(orig.wf(), "type:dict keys are an enumeration without repetition")
+    ctx.assume(forall([a_], z3.Implies(has0(a_), link0(a_, a_)), patterns=[link0(a_, a_)]), "pre:links are reflexive (PatchLinkage.from_catalogs/post:reflexive)")
+    cond = (lambda a, b: b > a) if auto else (lambda a, b: z3.BoolVal(True))
+    spec = lambda a, b: z3.If(z3.And(has0(a), a == b), 1, 0) + z3.If(z3.And(has0(a), link0(a, b), a != b, cond(a, b)), 1, 0)  # noqa: E731
+    Y = _Yielded()
+    ctx.ghost["emit_hook"] = Y.on_emit
+    links = M.PatchLinkage.__new__(M.PatchLinkage)
+    links.patch_links = orig
+    sites = [s for s in shadow.SITES if shadow.SITES[s]["module"] == "yaw.correlation.measurements" and shadow.SITES[s]["qualname"] == "PatchLinkage.iter_patch_id_pairs"]
+    heads = {s: shadow.SITES[s].get("head", "") for s in sites}
+    by = lambda text: sorted(s for s in sites if text in heads[s])  # noqa: E731
+    item_loops, while_loops, ex_loops = by("patch_links.items()"), by("len(patch_links)"), sorted(s for s in sites if heads[s].strip() == "exhausted")
+    if not (len(item_loops) == 2 and len(while_loops) == 1 and len(ex_loops) == 1 and len(sites) == 4):
+        raise Unsupported(f"{Q}: the loops the contract belongs to were changed ({heads})")
+    s_first, s_inner = item_loops
+    s_while, s_ex = while_loops[0], ex_loops[0]
+
+    def D_of(L):
+        d = L.patch_links
+        if not isinstance(d, _LinkDict):
+            raise Unsupported("patch_links is not the copied dict of the linkage")
+        return d
+
+    def A(D):
+        rem = D.rows.rem
+        return forall([a_, b_], Y.yc(a_, b_) + z3.If(z3.And(D.mem(a_), rem(a_, b_), cond(a_, b_)), 1, 0) == spec(a_, b_))
+
+    def irreflexive(D):
+        # no patch is left in its own set after the first loop (so `j > i` and `j >= i` are the same test)
+        return forall([a_], z3.Implies(D.mem(a_), z3.Not(D.rows.rem(a_, a_))))
+
+    def inv_first(L):
+        D = D_of(L)
+        jt = to_term(L.j)
+        done = lambda a: z3.And(has0(a), st0[2](a) < jt)  # noqa: E731
+        return dict(
+            rows=SBool(forall([a_, b_], D.rows.rem(a_, b_) == z3.And(link0(a_, b_), z3.Not(z3.And(a_ == b_, done(a_)))))),
+            yielded=SBool(forall([a_, b_], Y.yc(a_, b_) == z3.If(z3.And(a_ == b_, done(a_)), 1, 0))),
+            keys=SBool(z3.And(to_term(D.n) == to_term(st0[0]), forall([a_], D.key(a_) == st0[1](a_)), forall([a_], D.idx(a_) == st0[2](a_)))))
+
+    def inv_while(L):
+        D = D_of(L)
+        return dict(wf=SBool(D.wf()), keys=SBool(forall([a_], z3.Implies(D.mem(a_), has0(a_)))), account=SBool(A(D)), irreflexive=SBool(irreflexive(D)))
+
+    def inv_inner(L):
+        D = D_of(L)
+        E = L.exhausted
+        if not isinstance(E, _IdSet):
+            raise Unsupported("exhausted is not a set()")
+        return dict(account=SBool(A(D)), wf=SBool(E.wf()), irreflexive=SBool(irreflexive(D)),
+                    exhausted=SBool(forall([a_, b_], z3.Implies(E.mem(a_), z3.And(D.mem(a_), z3.Not(D.rows.rem(a_, b_)))))))
+
+    def inv_ex(L):
+        D, E = D_of(L), L.exhausted
+        before = L.old.patch_links
+        jt = to_term(L.j)
+        return dict(wf=SBool(D.wf()),
+                    keys=SBool(forall([a_], D.mem(a_) == z3.And(before.mem(a_), z3.Not(z3.And(E.mem(a_), E.idx(a_) < jt))))))
+
+    # the loop variables are rebound by the following loops before they are read again: any value will do after a loop
+    dead = {"i": lambda L: ctx.fresh_int("i_after_loop"), "j": lambda L: ctx.fresh_int("j_after_loop"), "links": lambda L: None}
+    specs = {s_first: LoopSpec(inv=inv_first, keep=("patch_links",), fresh=dead),
+             s_while: LoopSpec(inv=inv_while, fresh=dead),
+             s_inner: LoopSpec(inv=inv_inner, keep=("patch_links",), fresh=dead),
+             s_ex: LoopSpec(inv=inv_ex, fresh=dead)}
+
+    class RowsOfCopies:
+        """the rows of the dict the function works on are changed by the loops that pop from the sets"""
+
+        def vc_havoc(self, c, n_):
+            for d in ctx.ghost["copies"]:
+                d.rows.vc_havoc(c, n_)
+    ctx.ghost["loop_ghosts"] = {s_first: [RowsOfCopies(), Y], s_while: [RowsOfCopies(), Y], s_inner: [RowsOfCopies(), Y], s_ex: []}
+    with Patches() as pt, use_loops(specs):
+        pt.set(M, "set", lambda *a: _IdSet(ctx, "exhausted", n=SNum(z3.IntVal(0))) if not a else fail("set(...) with arguments"))
+        ctx.canary()
+        expect_no_exception(ctx, call(fn, links, auto=auto), name)
+    ctx.check(f"{name}/post:works_on_a_copy", len(ctx.ghost["copies"]) == 1)
+    a, b = ctx.fresh_int("a"), ctx.fresh_int("b")
+    ctx.check(f"{name}/post:every_patch_with_itself_and_every_linked_pair_exactly_once", SBool(Y.yc(a.t, b.t) == spec(a.t, b.t)),
+              detail="number of times (a, b) is yielded = [a is a patch and a == b] + [a is a patch, b linked to a, a != b (auto: a < b)]")
+    ctx.check(f"{name}/post:linkage_unchanged", And(links.patch_links is orig, SBool(z3.And(to_term(orig.n) == to_term(st0[0]), orig.key(a.t) == st0[1](a.t),
+                                                                                       orig.idx(a.t) == st0[2](a.t), orig.rows.rem(a.t, b.t) == link0(a.t, b.t)))),
+              detail="the iterator consumes a copy; the linkage can be iterated again (DD, DR, RD, RR share it)")
 
 
 @unit(P, "correlate.wiring", fuc=["yaw.correlation.measurements:autocorrelate", "yaw.correlation.measurements:crosscorrelate"],
